@@ -364,11 +364,28 @@ def r03d(ctx):
     if first is None:
         ctx.bad("_expr.is_filter_pushdown_available:one-filter", mod.loc(fn), "the refusal `if len(filters) != 1: return False` is gone: with several Filter consumers pushing one of them filters the data of the others")
     else:
-        late = [p for p in rets if p is not first and not any((not pol) and unparse(t) == one for t, pol in flow.facts(p))]
+        # (an earlier refusal - `return False` - is harmless; only answers that can allow the relocation must come after)
+        late = [p for p in rets if p is not first and not (isinstance(p.stmt.value, ast.Constant) and p.stmt.value.value is False) and not any((not pol) and unparse(t) == one for t, pol in flow.facts(p))]
         if late:
             ctx.bad("_expr.is_filter_pushdown_available:one-filter", mod.loc(late[0].stmt), "a return is reachable before/without the 'exactly one Filter dependent' refusal")
         else:
             ctx.ok("_expr.is_filter_pushdown_available:one-filter", mod.loc(first.stmt), "dominates all other returns")
+    # the expression must be the frame that is filtered - a rule also fires for a Filter parent of which the expression is only
+    # (part of) the predicate
+    par_param = fn.args.args[1].arg
+    is_frame = False
+    for p in rets:
+        if isinstance(p.stmt.value, ast.Constant) and p.stmt.value.value is False:
+            for t, pol in flow.facts(p):
+                if pol and (pmatch(f"{par_param}.frame._name != {a0}._name", t) is not None or pmatch(f"{a0}._name != {par_param}.frame._name", t) is not None):
+                    is_frame = True
+                if (not pol) and (pmatch(f"{par_param}.frame._name == {a0}._name", t) is not None or pmatch(f"{par_param}.frame is {a0}", t) is not None):
+                    is_frame = True
+    # ... and that refusal must dominate every other return
+    if is_frame:
+        refusal = next(p for p in rets if isinstance(p.stmt.value, ast.Constant) and p.stmt.value.value is False and any(f"{par_param}.frame" in unparse(t) for t, pol in flow.facts(p)))
+        is_frame = all(p is refusal or any(f"{par_param}.frame" in unparse(t) for t, pol in flow.facts(p)) for p in rets)
+    (ctx.ok if is_frame else ctx.bad)("_expr.is_filter_pushdown_available:is-the-filtered-frame", mod.loc(fn), "refuses when the expression is not the parent's frame" if is_frame else "the legality test never checks that the expression is the FRAME of the filter: operators that let filters pass also fire when they are only the predicate (df[df.a.astype(bool)]) and the rewrite filters the wrong operand")
     # single-parent shortcut must test the number of parents == 1
     short = [p for p in rets if isinstance(p.stmt.value, ast.Constant) and p.stmt.value.value is True]
     for i, p in enumerate(short):
